@@ -44,11 +44,13 @@ add("C12", "model_checking",
     "Driven sets are derived from the statement and the skeleton spec (harness/c12.py:_expect).")
 
 add("C01", "model_checking",
-    "Differential symbolic execution: a live system (skeletons T1-T9) is edited through the real setters, list "
+    "Differential symbolic execution: a live system (skeletons T1-T9, TX) is edited through the real setters, list "
     "mutators and grouped ModelingUpdate with symbolic old and new values, and after every edit a system is built "
     "from scratch from the mirrored specification in the same path; z3 decides hour-by-hour equality of every "
     "calculated attribute of every reachable object, plus equality of previous_/initial_ totals with snapshots.",
-    "History depth <= 2 (edit+inverse, link edit+numeric edit, sampled pairs); no inductive claim beyond that depth.")
+    "History depth <= 4 (edit+inverse, link histories, mixed histories with simulations switched on/off and failing edits); "
+    "beyond that depth the claim rests on the inductive graph invariant (live dependency graph = graph of the fresh build after "
+    "every step, on skeletons without a job shared by usage patterns), not on enumeration.")
 add("C03", "model_checking",
     "Symbolic execution of UsagePattern/JobBase/compute_nb_avg_hourly_occurrences inside real systems with symbolic "
     "starts, step and request durations and per-request amounts; z3 decides closed-form conservation sums and the "
@@ -138,7 +140,9 @@ add("C18", "model_checking",
     "chain, the chain reversed and System.after_init() again; str/explain/to_json/system_to_json and the aggregate views "
     "are read; after each step a snapshot comparison decides (by z3 where values are symbolic) that every calculated "
     "value and every input kept its physical value.",
-    "Plotting outside; initial_total_* bookkeeping re-recorded by after_init is not a result.")
+    "Every update function alone, updates carrying several changes, builder systems; inputs compared with the values given. "
+    "matplotlib plots of hourly values are exercised on fully concrete systems only (C float boundary); plotly/HTML views outside; "
+    "initial_total_* bookkeeping re-recorded by after_init is not a result.")
 add("C19", "model_checking",
     "Differential symbolic execution across configurations of the same model: all permutations of order-irrelevant "
     "lists, other creation orders, other identifier assignments, and set iteration order as an explored engine choice "
